@@ -198,6 +198,14 @@ def run_obligation(obd: dict) -> dict:
     return res
 
 
+def _safe_run(od: dict) -> dict:
+    try:
+        return run_obligation(od)
+    except BaseException as e:  # noqa
+        return dict(id=od["id"], expect=od["expect"], group=od["group"], verdict="inconclusive", paths=0, queries=0,
+                    cpu_s=0.0, solver_s=0.0, compared=0, cex=None, sample=None, detail="pool error %r" % (e,), wall_s=0.0)
+
+
 def run_replay(obd: dict, cex) -> dict:
     """Native re-execution (no CrossHair) of a counterexample."""
     ob = Ob(**obd)
@@ -271,19 +279,17 @@ def main(argv=None):
     obs.sort(key=lambda o: -o.timeout)
     obds = [asdict(o) for o in obs]
     results = []
-    with ProcessPoolExecutor(max_workers=args.jobs, max_tasks_per_child=8) as ex:
-        futs = {ex.submit(run_obligation, od): od for od in obds}
-        for fu in as_completed(futs):
-            od = futs[fu]
-            try:
-                r = fu.result()
-            except BaseException as e:  # noqa
-                r = dict(id=od["id"], expect=od["expect"], group=od["group"],
-                         verdict="inconclusive", paths=0, queries=0, cpu_s=0.0,
-                         solver_s=0.0, compared=0, cex=None, sample=None,
-                         detail="pool error %r" % (e,), wall_s=0.0)
-            r["_ob"] = od
+    import multiprocessing as mp
+
+    ctx = mp.get_context("fork")
+    byid = {od["id"]: od for od in obds}
+    with ctx.Pool(processes=min(args.jobs, max(1, len(obds))), maxtasksperchild=4) as pool:
+        for r in pool.imap_unordered(_safe_run, obds, chunksize=1):
+            r["_ob"] = byid[r["id"]]
             results.append(r)
+            if os.environ.get("VERIF_VERBOSE") or r.get("wall_s", 0) > 60:
+                print(f"  .. {r['id']} {r['verdict']} wall={r.get('wall_s', 0):.1f}s paths={r['paths']} "
+                      f"queries={r.get('queries', 0)}", flush=True)
 
     violations, known_lines, harness_errors, inconclusive = [], [], [], []
     n_dis = 0
